@@ -288,8 +288,8 @@ func main() {
 		timeouts := 0
 		for bi := 0; bi < nb; bi++ {
 			// three reports are a refutation: more batches only repeat it (and a change that loses GORACE makes
-		// every helper sleep a second at exit, so going on can take the whole budget)
-		if timeouts >= 2 || r.Violations() >= 3 {
+			// every helper sleep a second at exit, so going on can take the whole budget)
+			if timeouts >= 2 || r.Violations() >= 3 {
 				r.Set("stopped_early", fmt.Sprintf("after %d batch timeouts / %d violations", timeouts, r.Violations()))
 				break
 			}
